@@ -1586,7 +1586,13 @@ impl<'a> CompositionGraphEncoder<'a> {
         let (instances, rest): (Vec<_>, Vec<_>) = aggregator
             .imports()
             .partition(|(_, kind)| matches!(kind, ItemKind::Instance(_)));
-        for (name, kind) in instances.into_iter().chain(rest) {
+        // Among the instances, an interface imported under its own name comes
+        // before an import of the same interface under another name, so that
+        // the other import is never taken for it.
+        let (named, other): (Vec<_>, Vec<_>) = instances.into_iter().partition(|(name, kind)| {
+            matches!(kind, ItemKind::Instance(id) if aggregator.types()[*id].id.as_deref() == Some(*name))
+        });
+        for (name, kind) in named.into_iter().chain(other).chain(rest) {
             log::debug!("import `{name}` is being imported");
             let index = self.import(state, name, aggregator.types(), kind);
             encoded.insert(name, (kind.into(), index));
